@@ -417,9 +417,10 @@ func (a *mwAnalysis) contractFrame(w *writeSet, fc *FuncContract, sig *types.Sig
 	if fc.Pure {
 		return true
 	}
-	if !fc.HasMod || fc.AssumeFrame {
+	if !fc.HasMod {
 		return false
 	}
+	// (an `assumeframe` clause is used like any other: that is what callers of the function see)
 	paramT := func(name string) types.Type {
 		if name == "recv" && recvT != nil {
 			return recvT
